@@ -49,7 +49,8 @@ class ToGFA1:
       gfapy.error.ValueError: If the edge is internal
     """
     self._check_not_internal("overlap")
-    return self.alignment.complement() if self._is_sid1_from() else self.alignment
+    # the alignment has sid1 as reference; the GFA1 overlap the from segment
+    return self.alignment if self._is_sid1_from() else self.alignment.complement()
 
   @property
   def oriented_from(self):
